@@ -60,8 +60,15 @@ def layer_descs(draw):
         else:
             xy = [gc.generic(draw, 2 * k + j, 0.05, 0.95) for j in range(2)]
         orbits.append({"Z": int(zs[k]), "xy": xy, "zrel": gc.generic(draw, 9 + k, -0.5, 0.5)})
+    thick = draw(st.sampled_from([0.0, 0.0, 1.0, 2.0, 3.0])) * gc.generic(draw, 16, 0.3, 1.0)
+    if draw(st.integers(0, 5)) == 5:
+        # stacked sheets: every orbit sits exactly on the two outer planes z = +-thick/2 (AA-type bilayers when the group has
+        # a horizontal mirror) - the case in which a too small internal vacuum creates a spurious c/2 translation
+        thick = draw(gc.ffloat(1.5, 3.0))
+        for o in orbits:
+            o["zrel"] = 0.5 if draw(st.booleans()) else -0.5
     return {"sg": sg, "a": gc.generic(draw, 13, 3.0, 6.0), "b": gc.generic(draw, 14, 3.0, 6.0), "gamma": gc.generic(draw, 15, 70.0, 110.0),
-            "thick": draw(st.sampled_from([0.0, 0.0, 1.0, 2.0, 3.0])) * gc.generic(draw, 16, 0.3, 1.0), "orbits": orbits}
+            "thick": thick, "orbits": orbits}
 
 
 @st.composite
